@@ -267,6 +267,22 @@ func specsC03(tier string) []seqmc.Spec {
 		}
 		out = append(out, mkSpec(cfg, d))
 	}
+	// a cache built WithFutureThreshold: notifications far ahead of the clock with
+	// several members - an existing leaf (judged against the threshold) placed
+	// before members that create NEW leaves (never subject to it): every member is
+	// judged on its own
+	for _, ev := range []bool{true, false} {
+		cfg := &specCfg{name: fmt.Sprintf("cache built WithFutureThreshold(1ns), clock=2: bundles at ts 2 and 9 mixing existing and new leaves, eventDriven=%v (closure)", ev), targets: []string{"t1"}, eventDriven: ev, futureThreshold: 1, fixedClock: 2,
+			oracles: oset("errclass", "state", "feed", "replica", "caller")}
+		cfg.ops = append(cfg.ops, upd("t1", "x", 1, 1), upd("t1", "x", 2, 2), upd("t1", "n1", 1, 1), upd("t1", "x", 9, 3))
+		for _, ts := range []int64{2, 9} {
+			cfg.ops = append(cfg.ops,
+				op{kind: "multi", target: "t1", ts: ts, ups: []updSpec{{ps("x"), 5}, {ps("n1"), 5}, {ps("n2"), 5}}},
+				op{kind: "multi", target: "t1", ts: ts, ups: []updSpec{{ps("x"), 6}, {ps("n2"), 6}}, dels: []pathSpec{ps("n1")}})
+		}
+		cfg.ops = append(cfg.ops, del("t1", "*", 3), del("t1", "n2", 10))
+		out = append(out, mkSpec(cfg, 40))
+	}
 	// a cache told not to export some metadata entries (WithExcludedMeta): whatever
 	// happens to their leaves, the feed replays to what queries return
 	{
